@@ -71,6 +71,89 @@ fn repetition_docs(kind: &str, n: usize) -> Vec<generic::Doc> {
     v
 }
 
+/// C08, "go on after an error": a caller that reports a syntax error and simply asks the same
+/// streaming parser for the next item again. Every FURTHER syntax error is a syntax error like the
+/// first and has to designate a position inside the input (in-range clause); a panic is a violation.
+fn go_on_after_error(kind: &str, docs: &[generic::Doc], report: &mut Report) {
+    use flussab_cnf::{cnf, gcnf, wcnf, InnerParseError, ParseError};
+    fn judge(kind: &str, input: &[u8], errs: Vec<ParseError>, panicked: Option<String>, acc: &mut Report) {
+        let breaks: Vec<usize> = input.iter().enumerate().filter(|(_, b)| **b == b'\n').map(|(i, _)| i).collect();
+        acc.evaluations += 1;
+        acc.transitions += errs.len() as u64;
+        if errs.len() > 1 {
+            acc.nontrivial += 1;
+        }
+        if let Some(m) = panicked {
+            let replay = mc_core::json!({"property": "C08", "go_on": kind, "input_hex": mc_core::hex(input)});
+            acc.violation_with(&format!("{kind}/location/go-on/panic"), input.len() as u64, || (format!("{kind}<i32> on {:?}: asking again after a syntax error panicked: {m}", mc_core::show(input)), replay));
+            return;
+        }
+        for (k, e) in errs.into_iter().enumerate().skip(1) {
+            if let InnerParseError::SyntaxError(se) = *e {
+                if let Err(why) = generic::location_in_range(input, &breaks, se.location.line, se.location.column) {
+                    let replay = mc_core::json!({"property": "C08", "go_on": kind, "input_hex": mc_core::hex(input)});
+                    acc.violation_with(&format!("{kind}/location/go-on/out-of-range"), input.len() as u64, || (format!("{kind}<i32> on {:?}: syntax error #{} after going on ({}) at {}:{}: {why}", mc_core::show(input), k + 1, se.msg, se.location.line, se.location.column), replay));
+                    return;
+                }
+            }
+        }
+    }
+    let total = mc_core::par::par_fold(
+        docs.len(),
+        mc_core::threads(),
+        Report::new,
+        |acc, i| {
+            let input: &[u8] = &docs[i].bytes;
+            macro_rules! drive {
+                ($parser:expr) => {{
+                    let mut errs: Vec<ParseError> = Vec::new();
+                    let r = mc_core::subject::catch(|| {
+                        let mut errs: Vec<ParseError> = Vec::new();
+                        match $parser {
+                            Err(e) => errs.push(e),
+                            Ok(mut p) => {
+                                for _ in 0..64 {
+                                    match p.next_clause() {
+                                        Ok(Some(_)) => {}
+                                        Ok(None) => break,
+                                        Err(e) => {
+                                            errs.push(e);
+                                            if errs.len() >= 5 {
+                                                break;
+                                            }
+                                        }
+                                    }
+                                }
+                            }
+                        }
+                        errs
+                    });
+                    let panicked = match r {
+                        Ok(e) => {
+                            errs = e;
+                            None
+                        }
+                        Err((m, l)) => Some(format!("{m} @ {l}")),
+                    };
+                    if !errs.is_empty() || panicked.is_some() {
+                        judge(kind, input, errs, panicked, acc);
+                    }
+                }};
+            }
+            match kind {
+                "cnf" => drive!(cnf::Parser::<i32>::from_read(input, cnf::Config::default())),
+                "wcnf" => drive!(wcnf::Parser::<i32>::from_read(input, wcnf::Config::default())),
+                "gcnf" => drive!(gcnf::Parser::<i32>::from_read(input, gcnf::Config::default())),
+                _ => {}
+            }
+            acc.states += 1;
+        },
+        |a, b| a.merge(b),
+    );
+    report.merge(total);
+    report.completed.push(format!("{kind}: go on after an error - the streaming parser is asked again (up to 64 calls / 5 errors) after every syntax error on {} documents; every further syntax error must lie inside the input", docs.len()));
+}
+
 /// Long offending tokens as light-schedule documents for the chunking checks.
 fn long_token_light(kind: &str) -> Vec<generic::Doc> {
     generic::long_token_docs(&long_contexts(kind)).into_iter().map(|d| generic::Doc::new(format!("~{}", d.name), d.bytes)).collect()
@@ -88,6 +171,16 @@ fn main() {
         let text = std::fs::read_to_string(cli.file.as_ref().expect("replay needs a file")).unwrap();
         let v: Value = mc_core::serde_json::from_str(&text).unwrap();
         let v = if v.get("replay").is_some() { v["replay"].clone() } else { v };
+        if let Some(kind) = v["go_on"].as_str() {
+            // C08 "go on after an error": re-run the one document
+            let mut r = Report::new();
+            let input = mc_core::unhex(v["input_hex"].as_str().unwrap());
+            go_on_after_error(kind, &[generic::Doc::new("replay", input)], &mut r);
+            let text: String = r.violations.values().map(|x| format!("  {}\n", x.what)).collect();
+            println!("go on after an error ({kind}):\n{text}");
+            println!("{}", if r.violation_count > 0 { "REPLAY: property violated" } else { "REPLAY: property holds" });
+            std::process::exit(if r.violation_count > 0 { 1 } else { 0 });
+        }
         let subject = subjects::by_name(v["subject"].as_str().unwrap());
         let (violated, text) = match v["property"].as_str().unwrap_or("") {
             "C03" => c03::replay(&v),
@@ -200,6 +293,14 @@ fn main() {
                 let subs = subjects::subjects(kind, &lits_for(tier), &[false, true]);
                 let inp = gen::inputs(kind, tier);
                 let docs = inp.all();
+                if kind != "log" {
+                    let mut more = docs.clone();
+                    // documents with several corrupted tokens on different lines
+                    for t in [&b"p cnf 3 4\n1 X 0\n2 -3 Y\n3 0\n-1 Z 2 0\n"[..], b"p wcnf 3 3 9\n4 1 X 0\n5 2 -3 Y\n9 3 0\n", b"p gcnf 3 3 2\n{1} 1 X 0\n{2} 2 -3 Y\n{0} 3 0\n", b"1 X 0\nY\n\nZ 0\n", b"c x\nX\nc y\nY\n1 0\nZ", b"1 2\nX\n3 0\nY 0\n"] {
+                        more.push(generic::Doc::new("multi-error", t.to_vec()));
+                    }
+                    go_on_after_error(kind, &more, &mut report);
+                }
                 let mut pairs: Vec<(usize, Corruption)> = Vec::new();
                 for flag in [false, true] {
                     if flag && kind != "log" {
